@@ -326,7 +326,7 @@ def worker(acc, shard, nshards, tier, seed):
         core.crumb(case)
         took = matrix_case(acc, E, case, slices)
         acc.case('matrix', nontrivial=bool(took or case['window'] or case['only_triu']))
-        if acc.states % 20011 == 1:
+        if not acc.samples or acc.states % 20011 == 1:
             acc.sample(case)
     depth = 4 if tier == 'thorough' else 3
     for cfg in hist_universe(tier, seed, shard, nshards):
